@@ -43,6 +43,8 @@ pub struct MErr {
     pub filter_like: bool,
     /// true if produced by a failed `not` (C06 does not judge those)
     pub from_not: bool,
+    /// true if the failure happened inside a nested input (its span is in the inner input's terms: A6)
+    pub from_nested: bool,
     /// number of failures merged
     pub parts: u32,
 }
@@ -60,6 +62,7 @@ impl MErr {
             alt_ctxs: vec![],
             filter_like: false,
             from_not: false,
+            from_nested: false,
             parts: 1,
         }
     }
@@ -99,6 +102,7 @@ impl MErr {
         }
         self.filter_like |= o.filter_like;
         self.from_not |= o.from_not;
+        self.from_nested |= o.from_nested;
         self.parts += o.parts;
         self
     }
@@ -136,6 +140,8 @@ pub struct MEmit {
     pub ctxs: Vec<(String, Sp)>,
     /// emitted by the second parser of `and_is` (leniency A3)
     pub optional: bool,
+    /// emitted inside a nested input (span in the inner input's terms: A6)
+    pub nested: bool,
 }
 
 impl MEmit {
@@ -203,6 +209,9 @@ pub struct Stats {
     pub max_depth: usize,
     /// failures of `not` (their position/bookkeeping is pinned, not specified: error comparisons are lenient)
     pub not_failures: u64,
+    pub nested_runs: u64,
+    pub nested_failures: u64,
+    pub nested_incomplete: u64,
 }
 
 pub struct Model<'a> {
@@ -911,7 +920,7 @@ impl<'a> Model<'a> {
             Validate => match self.ev(&k[0], p, st, cx) {
                 R::Ok { v, end, st, mut em } => {
                     for i in 0..g.p.n {
-                        em.push(MEmit { k: EmitK::Tag(format!("E{}.{}", g.id, i)), span: (p, end), at: p, ctxs: vec![], optional: false });
+                        em.push(MEmit { k: EmitK::Tag(format!("E{}.{}", g.id, i)), span: (p, end), at: p, ctxs: vec![], optional: false, nested: false });
                     }
                     R::Ok { v, end, st, em }
                 }
@@ -1007,6 +1016,52 @@ impl<'a> Model<'a> {
                 }
                 r
             }
+            NestedIn => {
+                let (q, s_b, mut em) = match self.ev(&k[1], p, st, cx) {
+                    R::Ok { end, st, em, .. } => (end, st, em),
+                    R::Fail => return R::Fail,
+                };
+                // the inner input is exactly w[p..q]; positions stay absolute in the model
+                let outer_w = self.w;
+                let outer_pend = self.pend.take();
+                self.w = &outer_w[..q];
+                let mut r = self.ev(&k[0], p, s_b, cx);
+                if let R::Ok { end, .. } = &r {
+                    if *end != q {
+                        let e = MErr::new(*end, (*end, *end + 1), [Exp::EndOfInput]);
+                        self.fail(e);
+                        self.stats.nested_incomplete += 1;
+                        r = R::Fail;
+                    }
+                }
+                self.w = outer_w;
+                let inner_pend = self.pend.take();
+                self.pend = outer_pend;
+                if let Some(mut e) = inner_pend {
+                    // what the inner parse left pending surfaces at the outer position after `b`
+                    e.pos = q;
+                    e.from_nested = true;
+                    self.fail(e);
+                }
+                self.stats.nested_runs += 1;
+                match r {
+                    R::Ok { v, st, em: e, .. } => {
+                        em.extend(e.into_iter().map(|mut x| {
+                            x.nested = true;
+                            if let EmitK::Rec(me) = &mut x.k {
+                                me.from_nested = true;
+                            }
+                            x
+                        }));
+                        R::Ok { v, end: q, st, em }
+                    }
+                    R::Fail => {
+                        self.stats.nested_failures += 1;
+                        self.stats.abandoned_emissions += em.len() as u64;
+                        R::Fail
+                    }
+                }
+            }
             Rec => {
                 self.defs.push((g.p.n, &k[0]));
                 let r = self.ev(&k[0], p, st, cx);
@@ -1044,7 +1099,7 @@ impl<'a> Model<'a> {
                 panic!("model: failure without pending error at node {}", g.id)
             }
         };
-        let rec_emit = |e: &MErr, at: usize| MEmit { k: EmitK::Rec(e.clone()), span: e.span, at, ctxs: vec![], optional: false };
+        let rec_emit = |e: &MErr, at: usize| MEmit { k: EmitK::Rec(e.clone()), span: e.span, at, ctxs: vec![], optional: false, nested: false };
         match g.op {
             RecVia => match self.ev(&k[1], p, st, cx) {
                 R::Ok { v, end, st, mut em } => {
